@@ -63,6 +63,7 @@ pub const C_READDIR: u8 = 21; // Dir::read_from
 pub const C_PROC_RESOLVE: u8 = 22; // the stubbed ProcfsResolver::resolve
 
 // fault-plan entries
+pub const PLAN_N: usize = 16;
 pub const P_ANY: u8 = 0;
 pub const P_OK: u8 = 1;
 pub const P_FAIL: u8 = 2;
@@ -171,7 +172,7 @@ pub struct Kernel {
     /// fault plan: when set, every call answers Err.
     pub all_fail: bool,
     pub fixed_errno: i32,
-    pub plan: [u8; MAX_CALLS],
+    pub plan: [u8; PLAN_N],
     pub nfallible: usize,
     /// scenario switch for stubs returning Option-shaped data (None = arbitrary)
     pub want_base: [u8; 2],
@@ -201,7 +202,7 @@ pub static mut K: Kernel = Kernel {
     nclose: 0,
     all_fail: false,
     fixed_errno: 0,
-    plan: [P_ANY; MAX_CALLS],
+    plan: [P_ANY; PLAN_N],
     nfallible: 0,
     want_base: [P_ANY; 2],
     nsplit: 0,
@@ -388,7 +389,7 @@ impl Kernel {
     pub fn fails(&mut self) -> bool {
         let i = self.nfallible;
         self.nfallible += 1;
-        let p = if i < MAX_CALLS { self.plan[i] } else { P_ANY };
+        let p = if i < PLAN_N { self.plan[i] } else { P_ANY };
         if self.all_fail || p == P_FAIL {
             true
         } else if self.no_fail || p == P_OK {
